@@ -317,6 +317,50 @@ XalanNamespacesStack::getNamespaceForPrefix(const XalanDOMString&   thePrefix) c
 
 
 
+const XalanDOMString*
+XalanNamespacesStack::getPrefixForNamespace(const XalanDOMString&   theURI) const
+{
+    if (m_stackPosition == m_stackBegin)
+    {
+        return 0;
+    }
+    else
+    {
+        NamespacesStackType::const_iterator     theBegin(m_stackBegin);
+        NamespacesStackType::const_iterator     theEnd(m_stackPosition + 1);
+
+        // Search from the innermost context outwards, newest declaration
+        // first, and skip a prefix that a nearer declaration has re-bound
+        // to another namespace: it no longer stands for theURI here.
+        do
+        {
+            const value_type&   theEntry = *(--theEnd);
+
+            for (value_type::const_reverse_iterator i = theEntry.rbegin();
+                    i != theEntry.rend();
+                        ++i)
+            {
+                const XalanNamespace&   ns = *i;
+
+                if (equals(ns.getURI(), theURI))
+                {
+                    const XalanDOMString* const     theBoundURI =
+                        getNamespaceForPrefix(ns.getPrefix());
+
+                    if (theBoundURI != 0 && equals(*theBoundURI, theURI))
+                    {
+                        return &ns.getPrefix();
+                    }
+                }
+            }
+        } while(theBegin != theEnd);
+
+        return 0;
+    }
+}
+
+
+
 bool
 XalanNamespacesStack::prefixIsPresentLocal(const XalanDOMString&    thePrefix)
 {
